@@ -368,7 +368,8 @@ func (a *Act) havocAll(st *State) { a.havocHeaps(st, true) }
 
 func isGhostHeap(n string) bool {
 	_, isTrace := traceSorts[n]
-	return isTrace || strings.HasPrefix(n, "T_arg_") || strings.HasPrefix(n, "T_res") || strings.HasPrefix(n, "T_recv_") || n == outHeap || n == outOKHeap
+	// G_<name>: ghost variables of the function under verification (no callee can touch them)
+	return isTrace || strings.HasPrefix(n, "T_arg_") || strings.HasPrefix(n, "T_res") || strings.HasPrefix(n, "T_recv_") || strings.HasPrefix(n, "G_") || n == outHeap || n == outOKHeap
 }
 
 // havocHeaps forgets the program heaps; the ghost heaps (event trace, output counter) only when asked:
@@ -377,8 +378,8 @@ func (a *Act) havocHeaps(st *State, ghostToo bool) {
 	u := a.u
 	var names []string
 	for n := range u.heapSort {
-		if !ghostToo && isGhostHeap(n) {
-			continue
+		if (!ghostToo && isGhostHeap(n)) || strings.HasPrefix(n, "G_") {
+			continue // ghost variables belong to the function under verification: no call can change them
 		}
 		names = append(names, n)
 	}
